@@ -11,6 +11,12 @@ Cell.formula) on real multi-sheet / multi-table documents built through the publ
 * part `qual`     every table-name assignment up to renaming for the sheet x table shapes of the
                   tier x 11 header-label schemes x every ordered (host table, target table) pair x
                   rows / columns / spans / cells / rectangles;
+* part `ren`      for every small naming configuration x every rename of one table to any name of
+                  the configuration's pool (creating / removing duplicates of any table's name) and
+                  every sheet rename x every ordered (host, target) pair x coordinate and label
+                  references: read -> rename -> read -> rename back -> read, where each judged read
+                  is the FIRST access after the edit; judged by the resolver on the names as they
+                  are then and differentially against the same edits without any earlier read;
 * part `hist`     histories read -> write a header label -> read (-> write -> read), every label
                   write of a menu that makes labels duplicate / unique, compared differentially
                   with the same writes applied without the earlier reads; plus rename / header-count
@@ -104,6 +110,11 @@ def apply_event(built, ev):
         else:
             built.tables[(si, ti)].num_header_cols = n
         built.model.set_headers((si, ti), axis, n)
+    elif k == "sheet":
+        _, si, j = ev
+        name = R.sheet_name(j, built.model.seed)
+        built.doc.sheets[si].name = name
+        built.model.rename_sheet(si, name)
     else:
         raise ValueError(ev)
 
@@ -207,12 +218,175 @@ def history_cases(tier, seed):
 
 
 # --------------------------------------------------------------------------------------------
+# rename histories: the FIRST text read after a table / sheet rename
+# --------------------------------------------------------------------------------------------
+FRESH_SHEET = 7
+
+
+def ren_refs(body):
+    lo, hi = body[0], body[-1]
+    return [["cell", lo, hi, False, True],
+            ["tract", lo, hi, lo, hi, False, False, False, False, 0],
+            ["colon", lo, lo, False, False, hi, hi, False, False],
+            ["row", lo, False], ["col", hi, True],
+            ["tract", lo, hi, None, None, False, False, False, False, 0]]
+
+
+def rename_events(names):
+    """Every rename of one table to any other name of the configuration's pool (all names in
+    use plus one unused name; names that would repeat inside the table's own sheet excepted), and
+    every sheet to an unused sheet name."""
+    used = sorted({n for sh in names for n in sh})
+    pool = used + [max(used) + 1]
+    evs = []
+    for si, sh in enumerate(names):
+        for ti, cur in enumerate(sh):
+            for n in pool:
+                if n != cur and n not in sh:
+                    evs.append(["rename", si, ti, n])
+        evs.append(["sheet", si, FRESH_SHEET])
+    return evs
+
+
+def inverse_event(names, ev):
+    if ev[0] == "rename":
+        return ["rename", ev[1], ev[2], names[ev[1]][ev[2]]]
+    return ["sheet", ev[1], ev[1]]
+
+
+def _when(ev, inverse=False):
+    return "read>" + ("sheet-rename" if ev[0] == "sheet" else "rename") + (">read>rename-back" if inverse else "")
+
+
+def _diff_ident(built, host, target, spec, scheme, when):
+    return {"mechanism": "history", "class": "text-depends-on-earlier-read", "kind": R.spec_kind(spec),
+            "relation": R.relation(built.model, host, target), "labels": scheme, "when": when,
+            "pattern": "-", "blank": False, "both_axes": False, "repeated_elsewhere": False}
+
+
+def eval_rename_case(case):
+    """Minimal history on fresh documents. A: read the reference, rename, [read, rename back,] and
+    judge the FIRST text read after the last edit by the resolver on the names as they are then.
+    B: the same edits with no read at all before the judged one; A's text must equal B's."""
+    ev, host, rc, target, spec = case["event"], tuple(case["host"]), tuple(case["rc"]), tuple(case["target"]), case["spec"]
+    inverse = case.get("phase") == "inverse"
+    when = _when(ev, inverse)
+    inv = inverse_event(case["names"], ev)
+    a = R.Built(case["names"], case["scheme"], case["seed"])
+    eval_ref(a, host, rc, target, spec)
+    apply_event(a, ev)
+    if inverse:
+        eval_ref(a, host, rc, target, spec)
+        apply_event(a, inv)
+    ta, out = eval_ref(a, host, rc, target, spec, when)
+    b = R.Built(case["names"], case["scheme"], case["seed"])
+    apply_event(b, ev)
+    if inverse:
+        apply_event(b, inv)
+    tb, fb = eval_ref(b, host, rc, target, spec, when)
+    out = list(out) + [f for f in fb if f not in out]
+    if ta != tb:
+        out.append((_diff_ident(a, host, target, spec, case["scheme"], when),
+                    f"after {ev}{' and back' if inverse else ''}: first text read is {ta!r} when the formula had been read before the edit, "
+                    f"{tb!r} when not (stored {spec}, host table {host} cell {rc} -> table {target})"))
+    return out
+
+
+def work_rename(task):
+    """One naming configuration x label scheme, a list of rename events. Per event two fresh
+    documents: on B the event is applied before anything is read, then every (host, target,
+    reference) is read (rotating which one comes first); on A, for every (host, target, reference):
+    read it, apply the event, judge the FIRST read after it, apply the inverse event, judge the first
+    read after that. Nothing touches the document between an edit and the judged read."""
+    names, scheme, seed, events = task
+    part = Part()
+    body = R.body_of(scheme)
+    rc = (body[-1], body[0])
+    refs = ren_refs(body)
+    for n_ev, ev in enumerate(events):
+        a = R.Built(names, scheme, seed)
+        b = R.Built(names, scheme, seed)
+        uids = list(a.tables)
+        items = [(h, t, spec) for h in uids for t in uids for spec in refs]
+        base = {"part": "ren", "names": names, "scheme": scheme, "seed": seed, "event": ev}
+        inv = inverse_event(names, ev)
+        when, when_inv = _when(ev), _when(ev, True)
+        n = 0
+
+        def record(fails, h, t, spec, phase):
+            for ident, detail in fails:
+                part.fail(ident, detail, dict(base, host=list(h), rc=list(rc), target=list(t), spec=spec, phase=phase))
+
+        apply_event(b, ev)
+        k0 = (n_ev * 7) % len(items)
+        texts_b = {}
+        for h, t, spec in items[k0:] + items[:k0]:
+            text, fails = eval_ref(b, h, rc, t, spec, when)
+            texts_b[(h, t, tuple(spec))] = text
+            record(fails, h, t, spec, "edit")
+            n += 1
+        changed = 0
+        for h, t, spec in items:
+            pre, _ = eval_ref(a, h, rc, t, spec)
+            apply_event(a, ev)
+            text, fails = eval_ref(a, h, rc, t, spec, when)
+            record(fails, h, t, spec, "edit")
+            if text != texts_b[(h, t, tuple(spec))]:
+                part.fail(_diff_ident(a, h, t, spec, scheme, when),
+                          f"after {ev}: first text read is {text!r} when the formula had been read before the edit, "
+                          f"{texts_b[(h, t, tuple(spec))]!r} when not (stored {spec}, host table {h} cell {rc} -> table {t})",
+                          dict(base, host=list(h), rc=list(rc), target=list(t), spec=spec, phase="edit"))
+            changed += text != pre
+            apply_event(a, inv)
+            text2, fails2 = eval_ref(a, h, rc, t, spec, when_inv)
+            record(fails2, h, t, spec, "inverse")
+            if text2 != pre:
+                part.fail(_diff_ident(a, h, t, spec, scheme, when_inv),
+                          f"after {ev} and back: first text read is {text2!r}, before the two edits it was {pre!r} "
+                          f"(stored {spec}, host table {h} cell {rc} -> table {t})",
+                          dict(base, host=list(h), rc=list(rc), target=list(t), spec=spec, phase="inverse"))
+            n += 3
+            part.count("rename_first_reads_judged", 2)
+        part.count("evaluations", n)
+        part.count("distinct_nontrivial", n)
+        part.count("cases_rename", n)
+        part.count("rename_histories")
+        part.count("documents_built", 2)
+        part.count("rename_event_" + ev[0])
+        if changed:
+            part.count("rename_histories_where_the_edit_changed_a_printed_text")
+        part.outcome(f"ren/{ev[0]}/changed={bool(changed)}")
+    if events:
+        part.sample({"part": "ren", "names": names, "labels": scheme, "first_event_of_shard": events[0]})
+    return part.dump()
+
+
+def rename_tasks(tier, seed):
+    if tier == "quick":
+        plan = [((1, 2), True, ("none", "same")), ((2, 1), True, ("none", "same")), ((2, 2), True, ("none", "same"))]
+    else:
+        plan = [((1, 2), True, R.SCHEMES[:4]), ((2, 1), True, R.SCHEMES[:4]), ((2, 2), True, R.SCHEMES[:4]),
+                ((3, 1), True, ("none", "same")), ((2, 3), False, ("none", "same")), ((3, 2), False, ("same",))]
+    tasks = []
+    for (s, t), ordered, schemes in plan:
+        for names in R.canonical_name_configs(s, t, ordered=ordered):
+            evs = rename_events(names)
+            per = 4 if s * t <= 4 else 2
+            for scheme in schemes:
+                for i in range(0, len(evs), per):
+                    tasks.append((names, scheme, seed, evs[i:i + per]))
+    return tasks
+
+
+# --------------------------------------------------------------------------------------------
 # single case (enumeration and --replay)
 # --------------------------------------------------------------------------------------------
 def eval_case(case, built=None):
     """Evaluate one case -> list of (ident, detail)."""
     if case["part"] == "hist":
         return eval_history(case)[1]
+    if case["part"] == "ren":
+        return eval_rename_case(case)
     if built is None:
         built = R.Built(case["names"], case["scheme"], case["seed"])
     return eval_ref(built, case["host"], case["rc"], case["target"], case["spec"])[1]
@@ -372,6 +546,12 @@ def main():
     for res in pmap(work_hist, chunks, args.jobs):
         run.merge(res)
 
+    rtasks = rename_tasks(args.tier, args.seed)
+    rtasks.sort(key=lambda t: -sum(len(sh) for sh in t[0]))
+    for res in pmap(work_rename, rtasks, args.jobs):
+        run.merge(res)
+    n_ren = sum(len(t[3]) for t in rtasks)
+
     c = run.counters
     families = {}
     for _n, _s, fam, _r in name_configs(args.tier):
@@ -390,7 +570,10 @@ def main():
     run.floor(">= 8 distinct printed forms", len([f for f in forms if not f.startswith("hist/")]) >= 8)
     run.floor("histories executed, and in >= 10 of them the label write changed a printed text",
               c["histories"] == len(hcases) and c["histories_where_an_event_changed_a_printed_text"] >= 10)
-    run.floor("every task produced its document", c["documents_built"] == len(tasks) + 2 * len(hcases))
+    run.floor("rename histories executed (table and sheet renames), and in >= 20 of them the rename changed a printed text",
+              c["rename_histories"] == n_ren and c["rename_event_rename"] > 0 and c["rename_event_sheet"] > 0
+              and c["rename_histories_where_the_edit_changed_a_printed_text"] >= 20)
+    run.floor("every task produced its document", c["documents_built"] == len(tasks) + 2 * len(hcases) + 2 * n_ren)
     run.assume("sheet names, table names and header labels contain neither '::' nor ':'; labels that look like A1 coordinates, "
                "column letters or row numbers are not enumerated (the notation itself cannot tell them apart)")
     run.assume("reader model: no qualifier = host table; one qualifier = that table name in the host's sheet, else anywhere; "
@@ -403,7 +586,7 @@ def main():
                 "tuples, each printed text resolved by the independent reader model and compared with the stored target; "
                 "history probes count one per (history, probe point, host, target, reference)",
         "exhaustive": True,
-        "bounds": {"tier": args.tier, "tables_are": "4x4", "tasks": len(tasks), "histories": len(hcases)},
+        "bounds": {"tier": args.tier, "tables_are": "4x4", "tasks": len(tasks), "histories": len(hcases), "rename_histories": n_ren},
     }
     return run.finish(cov)
 
